@@ -650,7 +650,66 @@ struct RenderNode {
     style: ComputedStyle,
 }
 
+impl RenderNodeInfo {
+    /// Move all child nodes into `out`, leaving this node childless.
+    fn take_children(&mut self, out: &mut Vec<RenderNode>) {
+        use RenderNodeInfo::*;
+        match self {
+            Text(_) | Img(_, _) | Break | FragStart(_) => {}
+            Container(v)
+            | Link(_, v)
+            | Em(v)
+            | Strong(v)
+            | Strikeout(v)
+            | Code(v)
+            | Block(v)
+            | Header(_, v)
+            | Div(v)
+            | BlockQuote(v)
+            | Ul(v)
+            | Ol(_, v)
+            | Dl(v)
+            | Dt(v)
+            | Dd(v)
+            | ListItem(v)
+            | Sup(v) => out.append(v),
+            Table(RenderTable { rows, .. }) | TableBody(rows) => {
+                for row in rows {
+                    for cell in &mut row.cells {
+                        out.append(&mut cell.content);
+                    }
+                }
+            }
+            TableRow(row, _) => {
+                for cell in &mut row.cells {
+                    out.append(&mut cell.content);
+                }
+            }
+            TableCell(cell) => out.append(&mut cell.content),
+        }
+    }
+}
+
+/// The compiler-generated drop glue recurses once per nesting level, which
+/// exhausts the stack for very deeply nested documents (for example when a
+/// deep tree is discarded after a `TooNarrow` error).  Dismantle the tree
+/// iteratively instead, as `markup5ever_rcdom::Node` does.
+impl Drop for RenderNode {
+    fn drop(&mut self) {
+        let mut pending = Vec::new();
+        self.info.take_children(&mut pending);
+        while let Some(mut node) = pending.pop() {
+            node.info.take_children(&mut pending);
+        }
+    }
+}
+
 impl RenderNode {
+    /// Take the node's info out, for code which consumes the node.
+    fn into_info(mut self) -> RenderNodeInfo {
+        std::mem::replace(&mut self.info, RenderNodeInfo::Break)
+    }
+
     /// Create a node from the RenderNodeInfo.
     fn new(info: RenderNodeInfo) -> RenderNode {
         RenderNode {
@@ -1049,10 +1108,11 @@ fn table_to_render_tree<'a, T: Write>(
     pending(input, move |_, rowset| {
         let mut rows = vec![];
         for bodynode in rowset {
-            if let RenderNodeInfo::TableBody(body) = bodynode.info {
-                rows.extend(body);
-            } else {
-                html_trace!("Found in table: {:?}", bodynode.info);
+            match bodynode.into_info() {
+                RenderNodeInfo::TableBody(body) => rows.extend(body),
+                _other => {
+                    html_trace!("Found in table: {:?}", _other);
+                }
             }
         }
         if rows.is_empty() {
@@ -1076,11 +1136,12 @@ fn tbody_to_render_tree<'a, T: Write>(
         let mut rows = rowchildren
             .into_iter()
             .flat_map(|rownode| {
-                if let RenderNodeInfo::TableRow(row, _) = rownode.info {
-                    Some(row)
-                } else {
-                    html_trace!("  [[tbody child: {:?}]]", rownode);
-                    None
+                match rownode.into_info() {
+                    RenderNodeInfo::TableRow(row, _) => Some(row),
+                    _other => {
+                        html_trace!("  [[tbody child: {:?}]]", _other);
+                        None
+                    }
                 }
             })
             .collect::<Vec<_>>();
@@ -1129,11 +1190,12 @@ fn tr_to_render_tree<'a, T: Write>(
         let cells = cellnodes
             .into_iter()
             .flat_map(|cellnode| {
-                if let RenderNodeInfo::TableCell(cell) = cellnode.info {
-                    Some(cell)
-                } else {
-                    html_trace!("  [[tr child: {:?}]]", cellnode);
-                    None
+                match cellnode.into_info() {
+                    RenderNodeInfo::TableCell(cell) => Some(cell),
+                    _other => {
+                        html_trace!("  [[tr child: {:?}]]", _other);
+                        None
+                    }
                 }
             })
             .collect();
@@ -1960,7 +2022,7 @@ fn do_render_node<T: Write, D: TextDecorator>(
 
     let pushed_style = PushedStyleInfo::apply(renderer, &tree.style);
 
-    Ok(match tree.info {
+    Ok(match tree.into_info() {
         Text(ref tstr) => {
             renderer.add_inline_text(tstr)?;
             pushed_style.unwind(renderer);
